@@ -1,11 +1,20 @@
-//! Root-cause tag for the recorded finding "stream-fold iterations that are recorded in the merged
-//! data but are not claimed by any iteration of this run are dropped from the merged trace"
-//! (`FoldFSM::meet_fold_end`, DESIGN.md 12.6). The tag is computed from the guarded hook event
-//! `FoldUnclaimedLore`, i.e. from what the interpreter actually did in the observed run, and then
-//! follows the data: a run is tagged if it dropped recorded states itself or if its previous or
-//! current data descends from the output of such a run. A violation raised for a tagged step gets
-//! the suffix `+fold-lore-dropped` appended to its signature, so that the known-findings file can
-//! name exactly this cause and nothing else.
+//! Root-cause tags for two recorded findings. Each tag is computed from a guarded hook event, i.e.
+//! from what the interpreter actually did in the observed run, and then follows the data: a run is
+//! tagged if it shows the cause itself or if its previous or current data descends from the output
+//! of such a run. A violation raised for a tagged step gets the cause's suffix appended to its
+//! signature, so that the known-findings file names exactly this cause and nothing else.
+//!
+//! * `+fold-lore-dropped` -- stream-fold iterations recorded in the merged data are dropped at the
+//!   end of the fold because this run never claimed them (`FoldFSM::meet_fold_end`, DESIGN.md 12.6):
+//!   either the value was replayed into the stream but its iteration never started ("unvisited": an
+//!   earlier value of the same generation waits under `(seq body (next))`), or the value is not in
+//!   the stream yet when this peer runs the fold ("unreplayed": peers iterate an enclosing stream
+//!   fold in different orders). Lore whose value state WAS consumed but cannot be found through the
+//!   position mapping ("lost mapping") is a different matter and is never attributed to the finding.
+//! * `+failed-call-left-sent-state` -- a call fails while resolving its arguments (catchable, raised
+//!   before the trace is consulted) although an earlier run, which could not resolve the arguments
+//!   yet, recorded it as sent: the recorded state stays unconsumed and the next instruction takes it
+//!   for its own (DESIGN.md 12.7).
 use crate::invoke::RunOutcome;
 use crate::rng::fnv;
 use crate::sim::History;
@@ -13,28 +22,26 @@ use air::verif_hooks::Event;
 use std::cell::RefCell;
 use std::collections::HashSet;
 
-/// number of trace states of the previous/current data that the run's stream folds dropped because
-/// the iteration of a value that WAS replayed into the new trace never started in this run (the
-/// recorded finding). Lore left unclaimed because its value has no position in the new trace at all
-/// is a different matter and is never attributed to the finding (see `unmapped_states`).
 pub fn dropped_states(out: &RunOutcome) -> u64 {
     out.events
         .iter()
         .map(|e| match e {
-            Event::FoldUnclaimedLoreByCause { unvisited_states, .. } => *unvisited_states,
+            Event::FoldUnclaimedLoreByCause { unvisited_states, unreplayed_states, .. } => unvisited_states + unreplayed_states,
             _ => 0,
         })
         .sum()
 }
 
-pub fn unmapped_states(out: &RunOutcome) -> u64 {
-    out.events
-        .iter()
-        .map(|e| match e {
-            Event::FoldUnclaimedLoreByCause { unmapped_states, .. } => *unmapped_states,
-            _ => 0,
-        })
-        .sum()
+pub fn unvisited_states(out: &RunOutcome) -> u64 {
+    out.events.iter().map(|e| if let Event::FoldUnclaimedLoreByCause { unvisited_states, .. } = e { *unvisited_states } else { 0 }).sum()
+}
+
+pub fn unreplayed_states(out: &RunOutcome) -> u64 {
+    out.events.iter().map(|e| if let Event::FoldUnclaimedLoreByCause { unreplayed_states, .. } = e { *unreplayed_states } else { 0 }).sum()
+}
+
+pub fn lost_mapping_states(out: &RunOutcome) -> u64 {
+    out.events.iter().map(|e| if let Event::FoldUnclaimedLoreByCause { lost_mapping_states, .. } = e { *lost_mapping_states } else { 0 }).sum()
 }
 
 pub fn dropped_entries(out: &RunOutcome) -> u64 {
@@ -47,18 +54,29 @@ pub fn dropped_entries(out: &RunOutcome) -> u64 {
         .sum()
 }
 
-/// per step of the history: does the run drop recorded fold iterations, or consume data that
-/// descends from a run that did
-pub fn by_step(h: &History) -> Vec<bool> {
-    let mut bad: HashSet<(u64, usize)> = HashSet::new();
+pub fn failed_call_left_state(out: &RunOutcome) -> bool {
+    out.events.iter().any(|e| matches!(e, Event::FailedCallLeavesSentState { .. }))
+}
+
+pub const SUFFIX: &str = "+fold-lore-dropped";
+pub const SUFFIX_CALL: &str = "+failed-call-left-sent-state";
+
+/// per step of the history and per cause: does the run show the cause, or consume data that descends
+/// from a run that did
+pub fn by_step(h: &History) -> Vec<(bool, bool)> {
     let key = |b: &[u8]| (fnv(b), b.len());
+    let mut bad: [HashSet<(u64, usize)>; 2] = [HashSet::new(), HashSet::new()];
     let mut out = Vec::with_capacity(h.steps.len());
     for s in &h.steps {
-        let t = dropped_states(&s.out) > 0 || (!s.input.prev.is_empty() && bad.contains(&key(&s.input.prev))) || (!s.input.cur.is_empty() && bad.contains(&key(&s.input.cur)));
-        if t && !s.out.data.is_empty() {
-            bad.insert(key(&s.out.data));
+        let own = [dropped_states(&s.out) > 0, failed_call_left_state(&s.out)];
+        let mut t = [false, false];
+        for c in 0..2 {
+            t[c] = own[c] || (!s.input.prev.is_empty() && bad[c].contains(&key(&s.input.prev))) || (!s.input.cur.is_empty() && bad[c].contains(&key(&s.input.cur)));
+            if t[c] && !s.out.data.is_empty() {
+                bad[c].insert(key(&s.out.data));
+            }
         }
-        out.push(t);
+        out.push((t[0], t[1]));
     }
     out
 }
@@ -67,10 +85,8 @@ pub fn first_drop(h: &History) -> Option<usize> {
     h.steps.iter().position(|s| dropped_states(&s.out) > 0)
 }
 
-pub const SUFFIX: &str = "+fold-lore-dropped";
-
 thread_local! {
-    static CTX: RefCell<Option<Vec<bool>>> = RefCell::new(None);
+    static CTX: RefCell<Option<Vec<(bool, bool)>>> = RefCell::new(None);
 }
 
 /// Set while the monitors of one honest history run on this thread.
@@ -80,20 +96,20 @@ pub fn set_context(h: Option<&History>) {
 
 /// Suffix for a violation raised now: `step` is the step the violation is about (history-level
 /// violations pass None and are tagged when any step of the history is tagged).
-pub fn suffix(prop: &str, step: Option<usize>) -> &'static str {
-    // only the properties that speak about what merged data contains and whether peers accept it;
-    // violations of any other property in such a history are reported untagged
+pub fn suffix(prop: &str, step: Option<usize>) -> String {
+    // only the properties that speak about what merged data contains, whether peers accept it and
+    // whether honest runs fail; violations of any other property in such a history stay untagged
     if !matches!(prop, "C02" | "C03" | "C04" | "C05" | "C07" | "C08" | "C09" | "C19") {
-        return "";
+        return String::new();
     }
     CTX.with(|c| match &*c.borrow() {
-        None => "",
+        None => String::new(),
         Some(v) => {
-            let t = match step {
-                Some(i) => v.get(i).copied().unwrap_or(false),
-                None => v.iter().any(|b| *b),
+            let (a, b) = match step {
+                Some(i) => v.get(i).copied().unwrap_or((false, false)),
+                None => (v.iter().any(|t| t.0), v.iter().any(|t| t.1)),
             };
-            if t { SUFFIX } else { "" }
+            format!("{}{}", if a { SUFFIX } else { "" }, if b { SUFFIX_CALL } else { "" })
         }
     })
 }
